@@ -140,6 +140,29 @@ def rf10(run):
         bad = [(a, b) for a, b in zip(got, exp) if a != b][:3]
         run.violation(rule, f, 'register save area layout', 'the vararg prologue saves %s; va_arg expects %s' %
                       (bad and bad[0][0], bad and bad[0][1]), line=saves[0][3] if saves else f.line)
+    # 5b. every one of those stores is executed whenever the function is variadic: va_list may be handed to another function, so
+    #     no property of the function's own body can excuse a missing store
+    from rf_proto import dominating_conditions
+    cfg = f.cfg
+    for x in f.walk():
+        if x['k'] == 'CallExpr' and x.get('callee') in ('isave', 'dsave'):
+            b = cfg.block_of(x)
+            conds = dominating_conditions(cfg, b, selective=True) if b is not None else None
+            extra = None if conds is None else [c for c, t in conds if not (c.replace(' ', '').strip('()') in ('func->vararg_p', 'curr_func_item->u.func->vararg_p') and t)]
+            # conditions that hold on every path to the save code (early `return` guards) are not selective: keep only tests whose
+            # other edge also stays inside the function without passing the variadic test
+            sel = []
+            for c in (extra or []):
+                if 'vararg_p' in c:
+                    continue  # e.g. the leaf early exit `… && !func->vararg_p` is false for variadic functions
+                sel.append(c)
+            ok = conds is not None and not sel
+            run.ob(rule, ('save-unconditional', x['l']), ok, {'store': F.src(x)[:60], 'additional conditions': sel})
+            if not ok:
+                run.violation(rule, f, 'conditional register save %s' % F.src(F.strip(F.call_args(x)[3])),
+                              'the store of %s into the register save area is executed only under %s: a variadic function that passes its '
+                              'va_list on (or whose va_arg is in a callee) reads a slot that was never written'
+                              % (F.src(F.strip(F.call_args(x)[3])), sel), line=x['l'])
     # 6. FFI trampoline tables
     for gname, want in (('iregs', ABI.INT_ARG_HW),):
         gv = mir.global_var(gname, func='_MIR_get_ff_call')
